@@ -70,7 +70,17 @@ func errorSinks(v ssa.Value) []errSink {
 					sinks = append(sinks, errSink{"send", x})
 				}
 			case *ssa.Phi:
-				follow(x)
+				// an edge that is taken only when this very error is nil carries no failure (err = step1(); if err != nil
+				// { err = cleanup() }; return err — step1's failure never reaches the return)
+				live := false
+				for k, e := range x.Edges {
+					if e == v && k < len(x.Block().Preds) && !edgeImpliesNil(x.Block().Preds[k], x.Block(), v) {
+						live = true
+					}
+				}
+				if live {
+					follow(x)
+				}
 			case *ssa.MakeInterface:
 				follow(x)
 			case *ssa.ChangeInterface:
@@ -250,4 +260,33 @@ func setStr(m map[string]bool) string {
 		return "∅"
 	}
 	return "{" + strings.Join(sortedKeys(m), ", ") + "}"
+}
+
+// edgeImpliesNil: control reaches succ from pred only when the error value e is nil.
+func edgeImpliesNil(pred, succ *ssa.BasicBlock, e ssa.Value) bool {
+	match := func(x ssa.Value) bool { return x == e }
+	if errGuard(pred, true, match) {
+		return true
+	}
+	if len(pred.Instrs) == 0 {
+		return false
+	}
+	ifi, ok := pred.Instrs[len(pred.Instrs)-1].(*ssa.If)
+	if !ok || len(pred.Succs) != 2 {
+		return false
+	}
+	v, pol := stripNot(ifi.Cond, true)
+	eq, isCmp := isNilCompare(v, match)
+	if !isCmp {
+		return false
+	}
+	// pol: polarity of the condition on the true edge; eq: comparison is `e == nil`
+	nilOnTrue := eq == pol
+	if pred.Succs[0] == succ && pred.Succs[1] != succ {
+		return nilOnTrue
+	}
+	if pred.Succs[1] == succ && pred.Succs[0] != succ {
+		return !nilOnTrue
+	}
+	return false
 }
